@@ -20,11 +20,21 @@ directive lines starting with `//@`:
   //@   replace_range <start anchor> ... <stop anchor> ==> <new>   (both anchors inclusive)
   //@   tail <name> <anchor>      block-tail expression E starting at anchor -> `let name = E; <text> name`
   //@   body_start
+  //@   attr               (following lines = attributes put in front of the item)
+  //@   every_loop         (following lines = loop contract for EVERY loop of the function; a line
+  //@                       `pre: <stmt>` is inserted before the loop; `$K` = loop ordinal)
+  //@   abstract           the body is replaced by `{ unimplemented!() }` and the item marked
+  //@                       `#[verifier::external_body]` (signature + injected contract stay)
+  //@   use <template>     append the clauses of a `//@ template <name>` .. `//@ end` block
   //@ end
+  //@ foreach <path> :: <impl header> recv=mut|ref|any [match=<regex>] use=<template> [rules=..]
+  //@       one cut per method of that impl (with that receiver kind, name matching the regex) that is
+  //@       not cut explicitly elsewhere in the template; each gets the template's clauses
 
 Everything between `//@ cut` and `//@ end` is replaced by the cut, normalised and
 contract-injected repository text.
 """
+import copy
 import os
 import re
 from .cut import SourceFile, LostAnchor, sha
@@ -53,6 +63,10 @@ def build(template_path, out_path, canary=False, repo=None, mutate=None):
     base = os.path.dirname(template_path)
     out, cuts, norm_log = [], [], []
     files = {}
+    templates = {}
+    explicit = set()
+    side = []
+    norm_ctx = {}
 
     def lines_of(path):
         with open(path, encoding="utf-8") as f:
@@ -75,6 +89,41 @@ def build(template_path, out_path, canary=False, repo=None, mutate=None):
                 rules = list(DEFAULT_RULES) + (m.group(3).split(",") if m.group(3) else [])
                 cut = Cut(m.group(1), m.group(2).strip(), rules)
                 i += 1
+                i = parse_clauses(lines, i, cut.clauses)
+                emit_cut(cut)
+                i += 1
+                continue
+            if s.startswith("//@ side_obligations "):
+                side.extend(x.strip() for x in s[len("//@ side_obligations "):].split(",") if x.strip())
+                i += 1
+                continue
+            if s.startswith("//@ n13_def "):
+                # the definition that rule N13 inlines: cut from the repository on this run
+                m = re.match(r"//@ n13_def (\S+) :: (.*)$", s)
+                sf0 = source(m.group(1))
+                norm_ctx["n13_def"] = sf0.text(sf0.find(m.group(2).strip()))
+                i += 1
+                continue
+            if s.startswith("//@ template "):
+                name = s[len("//@ template "):].strip()
+                cl = []
+                i = parse_clauses(lines, i + 1, cl)
+                templates[name] = cl
+                i += 1
+                continue
+            if s.startswith("//@ foreach "):
+                m = re.match(r"//@ foreach (\S+) :: (.*?) recv=(\w+)(?: match=(\S+))? use=(\w+)(?: rules=(\S+))?$", s)
+                if not m:
+                    raise LostAnchor(f"bad foreach directive: {s}")
+                expand_foreach(*m.groups())
+                i += 1
+                continue
+            out.append(ln)
+            i += 1
+
+    def parse_clauses(lines, i, clauses):
+        if True:
+            if True:
                 cur = None
                 while i < len(lines):
                     t = lines[i].strip()
@@ -92,8 +141,15 @@ def build(template_path, out_path, canary=False, repo=None, mutate=None):
                             cur = {"op": "ret", "name": arg, "text": ""}
                         elif op == "sig":
                             cur = {"op": "sig", "text": ""}
-                        elif op == "body_start":
-                            cur = {"op": "body_start", "text": ""}
+                        elif op in ("body_start", "attr", "every_loop", "abstract"):
+                            cur = {"op": op, "text": ""}
+                        elif op == "use":
+                            if arg not in templates:
+                                raise LostAnchor(f"use: unknown template {arg}")
+                            clauses.extend(copy.deepcopy(templates[arg]))
+                            cur = None
+                            i += 1
+                            continue
                         elif op == "loop":
                             mm = re.match(r"(\d+)(?:\s+iter=(\w+))?$", arg)
                             cur = {"op": "loop", "n": int(mm.group(1)), "iter": mm.group(2), "text": ""}
@@ -103,6 +159,8 @@ def build(template_path, out_path, canary=False, repo=None, mutate=None):
                             mm = re.match(r"(\d+)(?:\s+params=(.*?))?(?:\s+ret=(.*))?$", arg)
                             cur = {"op": "closure", "n": int(mm.group(1)), "params": mm.group(2),
                                    "ret": mm.group(3), "text": ""}
+                        elif op == "around_all":
+                            cur = {"op": op, "anchor": arg, "text": ""}
                         elif op in ("before", "after", "after_stmt"):
                             cur = {"op": op, "anchor": arg, "text": "", "nth": nth}
                         elif op == "tail":
@@ -122,26 +180,50 @@ def build(template_path, out_path, canary=False, repo=None, mutate=None):
                             cur = {"op": op, "old": old, "new": new, "text": ""}
                         else:
                             raise LostAnchor(f"unknown directive {t}")
-                        cut.clauses.append(cur)
+                        clauses.append(cur)
                     else:
                         if cur is not None:
                             cur["text"] += lines[i] + "\n"
                     i += 1
                 if i >= len(lines):
                     raise LostAnchor("cut without end")
-                emit_cut(cut)
-                i += 1
-                continue
-            out.append(ln)
-            i += 1
+                return i
 
-    def emit_cut(cut):
-        p = os.path.join(repo, cut.path)
+    def expand_foreach(path, header, recv, rx, tname, rules_s):
+        if tname not in templates:
+            raise LostAnchor(f"foreach: unknown template {tname}")
+        sf = source(path)
+        impl = sf.find("impl " + header)
+        rules = list(DEFAULT_RULES) + (rules_s.split(",") if rules_s else [])
+        n = 0
+        for ch in impl.children:
+            if ch.kind != "fn" or ch.cfg_test:
+                continue
+            if (path, header, ch.name) in explicit:
+                continue
+            if rx and not re.search(rx, ch.name):
+                continue
+            hdr = "".join(ch.header.split())
+            kind = "mut" if "(&mutself" in hdr or "(mutself" in hdr else ("ref" if "(&self" in hdr else "other")
+            if recv != "any" and kind != recv:
+                continue
+            cut = Cut(path, f"method {header}::{ch.name}", rules)
+            cut.clauses = copy.deepcopy(templates[tname])
+            emit_cut(cut)
+            n += 1
+        if n == 0:
+            raise LostAnchor(f"foreach matched no method: {header} recv={recv} match={rx}")
+
+    def source(path):
+        p = os.path.join(repo, path)
         if p not in files:
             if not os.path.exists(p):
                 raise LostAnchor(f"missing file {p}")
             files[p] = SourceFile(p)
-        sf = files[p]
+        return files[p]
+
+    def emit_cut(cut):
+        sf = source(cut.path)
         mclo = re.match(r"closure (\d+) as (\w+) in (.*)$", cut.selector)
         if mclo:
             it = sf.find(mclo.group(3))
@@ -156,11 +238,12 @@ def build(template_path, out_path, canary=False, repo=None, mutate=None):
         cut.src_lines = (l0, l1)
         cut.sha = sha(raw)
         cut.raw = raw
-        cut.has_body = (it.kind == "fn" and it.body_open >= 0)
+        cut.has_body = (it.kind == "fn" and it.body_open >= 0) and not any(c["op"] == "abstract" for c in cut.clauses)
+        cut.abstract = any(c["op"] == "abstract" for c in cut.clauses)
         if mutate is not None:
             raw = mutate(cut, raw)
         log = []
-        txt = normalise(raw, cut.rules, log)
+        txt = normalise(raw, cut.rules, log, norm_ctx)
         norm_log.extend(f"{cut.selector}: {l}" for l in log)
         clauses = list(cut.clauses)
         if canary and cut.has_body:
@@ -175,9 +258,19 @@ def build(template_path, out_path, canary=False, repo=None, mutate=None):
         cut.text = txt
         cuts.append(cut)
 
+    def prescan(lines):
+        for ln in lines:
+            t = ln.strip()
+            if t.startswith("//@ include "):
+                prescan(lines_of(os.path.join(base, t[len("//@ include "):].strip())))
+            m = re.match(r"//@ cut (\S+) :: method (.*)::(\w+)(?: rules=\S+)?$", t)
+            if m:
+                explicit.add((m.group(1), " ".join(m.group(2).split()), m.group(3)))
+
+    prescan(lines_of(template_path))
     process(lines_of(template_path))
     text = "\n".join(out) + "\n"
     os.makedirs(os.path.dirname(out_path), exist_ok=True)
     with open(out_path, "w", encoding="utf-8") as f:
         f.write(text)
-    return {"cuts": cuts, "norm_log": norm_log, "text": text}
+    return {"cuts": cuts, "norm_log": norm_log, "text": text, "side_obligations": side}
